@@ -1,7 +1,7 @@
 (* C06 - Every counted line lands in exactly one platform set; all reports agree.
    Statements only. *)
 From Coq Require Import ZArith String Bool Arith Permutation Sorted List.
-From CBI Require Import Lib.Data Lib.Res Model.C06 Spec.C06 Proofs.C06.
+From CBI Require Import Lib.Data Lib.Res Model.C06 Spec.C06 Proofs.C06 Proofs.C06tree.
 Import ListNotations.
 Local Open Scope Z_scope.
 
@@ -66,3 +66,110 @@ Theorem C06_export_partition : forall files, Forall file_ok files ->
      Z.of_nat (List.length (eunused e)) = sum_if is_empty (file_setmap f)) files (export files).
 Proof. exact export_partition. Qed.
 Print Assumptions C06_export_partition.
+
+(* Tree aggregation, by induction over the inserts of report.files, for the pruned
+   and the unpruned tree alike.  (1) A path q that is not the path of a file: if
+   the tree has a node there, it is a directory, not a link, and EVERY figure of
+   its setmap (total, used, per platform: the sum of the values whose key
+   satisfies P) is the sum over the shown non-link files strictly below q; and
+   the tree has a node at q exactly if q is the root or a prefix of a shown
+   file's path.  (2) On a code base whose paths are distinct, prefix-free and
+   non-empty every shown file has a leaf at its own path which carries the file's
+   own setmap, i.e. the sums over the file's own nodes, symlink or not. *)
+Theorem C06_tree_dir_sums : forall prune files,
+  (forall q, (forall f, In f files -> fpath f <> q) ->
+     (forall n, lookup q (files_tree prune files) = Some n ->
+        tdir n = true /\ tlink n = false /\ forall P, sum_if P (tsm n) = spec_dir P prune q files) /\
+     (lookup q (files_tree prune files) <> None <->
+        q = [] \/ exists f, In f files /\ shown prune f = true /\ prefix_eq q (fpath f) = true)) /\
+  (wf_paths files -> forall f, In f files -> shown prune f = true ->
+     exists n, lookup (fpath f) (files_tree prune files) = Some n /\
+       tname n = last (fpath f) EmptyString /\ tdir n = false /\ tlink n = flink f /\ tch n = [] /\
+       tsm n = file_setmap f /\ forall P, sum_if P (tsm n) = nodes_sum P (fnodes f)).
+Proof.
+  intros prune files. split.
+  - intros q Hq. split; [|apply tree_present].
+    intros n Hn. destruct (tree_dir_kind prune files q n Hn Hq) as [A B]. split; [exact A|]. split; [exact B|].
+    intros P. pose proof (tree_dir_sums P prune q files Hq) as H. rewrite Hn in H. exact H.
+  - intros Hwf f Hf Hs. destruct (tree_file_node prune files f Hwf Hf Hs) as (n & Hn & A & B & C & D & E).
+    exists n. split; [exact Hn|]. split; [exact A|]. split; [exact B|]. split; [exact C|]. split; [exact E|]. split; [exact D|].
+    intros P. rewrite D. apply sum_if_file_setmap.
+Qed.
+Print Assumptions C06_tree_dir_sums.
+
+(* The unpruned root carries the summary's figures: when every iterated symlink
+   has its target in the code base (guaranteed by CodeBase.__contains__, checked
+   on every case) and no file sits at the root path itself, every figure of the
+   root's setmap equals the same figure of get_setmap; in particular the SLOC
+   cell of the root row is the summary's Total SLOC. *)
+Theorem C06_root_is_summary : forall files, links_ok files -> (forall f, In f files -> fpath f <> []) ->
+  (forall P, sum_if P (tsm (files_tree false files)) = sum_if P (get_setmap files)) /\
+  (forall rp U, rtotal (mkrow rp U 0 (files_tree false files)) = sloc files) /\
+  (forall U lv, exists rest, snd (report_files U false lv files) =
+      mkrow (node_plats U (tsm (files_tree false files))) U 0 (files_tree false files) :: rest).
+Proof.
+  intros files Hl Hne. split; [apply root_is_summary; assumption|]. split.
+  - intros rp U. cbn [mkrow rtotal]. unfold sm_total. rewrite (root_is_summary files Hl Hne). apply setmap_total.
+  - intros U lv. apply report_root_row.
+Qed.
+Print Assumptions C06_root_is_summary.
+
+(* --prune drops exactly the files no platform uses: the pruned tree IS the
+   unpruned tree of the files that have a node with a non-empty platform set; on
+   well-formed paths a file keeps its leaf iff it is used; and no figure that
+   ignores the empty platform set (used lines, per-platform lines) changes. *)
+Theorem C06_prune_exact : forall files,
+  files_tree true files = files_tree false (filter file_used files) /\
+  (forall f, file_used f = true <-> exists n, In n (fnodes f) /\ nplat n <> []) /\
+  (wf_paths files -> forall f, In f files ->
+     (lookup (fpath f) (files_tree true files) <> None <-> file_used f = true)) /\
+  (forall P q, P [] = false -> spec_dir P true q files = spec_dir P false q files).
+Proof.
+  intros files. split; [apply prune_filter|]. split; [apply file_used_iff|].
+  split; [intros Hwf f Hf; apply prune_exact; assumption | intros P q; apply prune_keeps_used].
+Qed.
+Print Assumptions C06_prune_exact.
+
+(* -L k (k > 0) only hides rows: same legend, and the printed rows are exactly
+   the rows of the unlimited report whose depth is <= k, in the same order with
+   the same cells; k = 0 hides nothing (Python falsy; cbi-tree rejects it). *)
+Theorem C06_levels_only_hide : forall U prune k files,
+  report_files U prune (Some k) files =
+  (fst (report_files U prune None files),
+   if (k =? 0)%nat then snd (report_files U prune None files)
+   else filter (fun r => (rdepth r <=? k)%nat) (snd (report_files U prune None files))).
+Proof. exact report_levels. Qed.
+Print Assumptions C06_levels_only_hide.
+
+(* non-vacuity: two directories, a file used by two platforms with an unused block,
+   a header used by one platform, an unused header, and a symlink to a member *)
+Definition C06_ex_node (ls : list Z) (ps : pset) : node := {| nlines := ls; nnum := Z.of_nat (List.length ls); nplat := ps |}.
+Definition C06_example : list file :=
+  [ {| fpath := ["src"; "a.c"]; flink := false; ftarget_in := false; fid := "h1";
+       fnodes := [C06_ex_node [1; 2] ["cpu"; "gpu"]; C06_ex_node [4] ["cpu"]; C06_ex_node [6; 7] []; C06_ex_node [9] ["cpu"; "gpu"]] |};
+    {| fpath := ["src"; "util"; "b.h"]; flink := false; ftarget_in := false; fid := "h2";
+       fnodes := [C06_ex_node [1] ["gpu"]] |};
+    {| fpath := ["inc"; "u.h"]; flink := false; ftarget_in := false; fid := "h3";
+       fnodes := [C06_ex_node [1; 2; 3] []] |};
+    {| fpath := ["l.c"]; flink := true; ftarget_in := true; fid := "h1";
+       fnodes := [C06_ex_node [1; 2] ["cpu"]] |} ]%string.
+Example C06_nonvacuous_hyps : wf_paths C06_example /\ Forall file_ok C06_example /\ links_ok C06_example.
+Proof.
+  split; [|split].
+  - split; [|split].
+    + cbn. repeat constructor; cbn; intuition discriminate.
+    + intros f g Hf Hg. cbn in Hf, Hg. intuition (subst; reflexivity).
+    + intros f Hf. cbn in Hf. intuition (subst; discriminate).
+  - repeat constructor; cbn; intuition discriminate.
+  - intros f Hf Hl. cbn in Hf. intuition (subst; cbn in Hl; try discriminate; reflexivity).
+Qed.
+Example C06_nonvacuous :
+  (get_setmap C06_example,
+   match summary (get_setmap C06_example) with Ok (rows, t) => (map scount rows, t) | Err _ => ([], -1) end,
+   map (fun e => (eused e, eunused e)) (export C06_example),
+   map (fun r => (rdepth r, rname r, rtotal r, rused r)) (snd (report_files ["cpu"; "gpu"]%string true (Some 1%nat) C06_example)))
+  = ([(["cpu"; "gpu"], 3); (["cpu"], 1); ([], 5); (["gpu"], 1)]%string,
+     ([5; 1; 1; 3], 10),
+     [([1; 2; 4; 9], [6; 7]); ([1], []); ([], [1; 2; 3]); ([1; 2], [])],
+     [(0%nat, ""%string, 7, 5); (1%nat, "src"%string, 7, 5); (1%nat, "l.c"%string, 2, 2)]).
+Proof. vm_compute. reflexivity. Qed.
